@@ -269,3 +269,20 @@ def gen_fold():
             raise GenError("translator: production %s emits opcode %s which is not a modelled VM case" % (name, num))
         out.append("Definition vm_of_fold_%s := vm_%s.\n" % (name, cands[0]))
     return "".join(out)
+
+
+@gen.register("GenTables.v")
+def gen_tables():
+    """character tables as the library computes them (after yr_initialize, "C" locale)"""
+    b = build.ensure_build("plain")
+    prog = ('#include <stdio.h>\n#include <yara.h>\n#include <yara/globals.h>\n#include <yara/strutils.h>\n'
+            'int main(){ yr_initialize();\n'
+            'printf("Definition lowercase_table : list N := [");for(int i=0;i<256;i++)printf("%s%d",i?";":"",yr_lowercase[i]);printf("]%%N.\\n");\n'
+            'printf("Definition altercase_table : list N := [");for(int i=0;i<256;i++)printf("%s%d",i?";":"",yr_altercase[i]);printf("]%%N.\\n");\n'
+            'printf("Definition isalnum_table : list bool := [");for(int i=0;i<256;i++){unsigned char c=i;printf("%s%s",i?";":"",yr_isalnum(&c)?"true":"false");}printf("].\\n");\n'
+            'return 0;}\n')
+    res, err = gen._compile_run(prog, extra_inc=[os.path.join(b, "libyara.a"), "-lcrypto", "-lm", "-lpthread"])
+    if res is None:
+        raise GenError("translator cannot evaluate character tables: " + err[:400])
+    return ("(* GENERATED by lib/genfold.py from the library's own tables: do not edit *)\n"
+            "From Coq Require Import NArith List.\nImport ListNotations.\n\n" + res)
